@@ -21,6 +21,21 @@ CACHE = os.environ.get('VERIF_CACHE', '/var/tmp/parol-verif-cache')
 REPO_KEY = hashlib.md5(os.path.realpath(REPO).encode()).hexdigest()[:8]
 
 
+class _BuildLock:
+    """build and private copy are one critical section per cache directory: two runs (of possibly different versions of
+    /verif) against the same repository path must not swap binaries between `cargo build` and the copy"""
+    def __init__(self, tdir):
+        self.path = os.path.join(tdir, '.verif-build.lock')
+    def __enter__(self):
+        import fcntl
+        self.f = open(self.path, 'w')
+        fcntl.flock(self.f, fcntl.LOCK_EX)
+    def __exit__(self, *a):
+        import fcntl
+        fcntl.flock(self.f, fcntl.LOCK_UN)
+        self.f.close()
+
+
 def _private_copy(exe, work, name):
     """the binary that was just built is copied into this run's scratch directory, so that a concurrent build in the shared
     cache cannot replace it between build and run"""
@@ -46,11 +61,12 @@ def build_native_from_kani_template(u, work):
     os.makedirs(tdir, exist_ok=True)
     env = dict(os.environ, CARGO_NET_OFFLINE='true', CARGO_TARGET_DIR=tdir)
     t0 = time.time()
-    p = subprocess.run(['cargo', 'build', '--offline', '--quiet', '--features', u['feature'], '--bin', u['bin']], cwd=cdir,
-                       capture_output=True, text=True, env=env, timeout=1800)
-    if p.returncode != 0:
-        return None, 'native build of the template crate failed: ' + p.stderr[-1500:], time.time() - t0, info
-    return _private_copy(os.path.join(tdir, 'debug', u['bin']), work, u['name']), '', time.time() - t0, info
+    with _BuildLock(tdir):
+        p = subprocess.run(['cargo', 'build', '--offline', '--quiet', '--features', u['feature'], '--bin', u['bin']], cwd=cdir,
+                           capture_output=True, text=True, env=env, timeout=1800)
+        if p.returncode != 0:
+            return None, 'native build of the template crate failed: ' + p.stderr[-1500:], time.time() - t0, info
+        return _private_copy(os.path.join(tdir, 'debug', u['bin']), work, u['name']), '', time.time() - t0, info
 
 
 def build_native(u, work):
@@ -75,14 +91,15 @@ def build_native(u, work):
     os.makedirs(tdir, exist_ok=True)
     env = dict(os.environ, CARGO_NET_OFFLINE='true', CARGO_TARGET_DIR=tdir)
     t0 = time.time()
-    p = subprocess.run(['cargo', 'build', '--offline', '--quiet'], cwd=cdir, capture_output=True, text=True, env=env, timeout=3600)
-    if p.returncode != 0 and 'lock file' in p.stderr:
-        # the copied lock file may hold more than this crate needs; let cargo prune it offline
-        os.remove(os.path.join(cdir, 'Cargo.lock'))
+    with _BuildLock(tdir):
         p = subprocess.run(['cargo', 'build', '--offline', '--quiet'], cwd=cdir, capture_output=True, text=True, env=env, timeout=3600)
-    if p.returncode != 0:
-        return None, 'native build against /repo failed: ' + p.stderr[-1500:], time.time() - t0
-    exe = _private_copy(os.path.join(tdir, 'debug', u.get('bin', u['name'])), work, u['name'])
+        if p.returncode != 0 and 'lock file' in p.stderr:
+            # the copied lock file may hold more than this crate needs; let cargo prune it offline
+            os.remove(os.path.join(cdir, 'Cargo.lock'))
+            p = subprocess.run(['cargo', 'build', '--offline', '--quiet'], cwd=cdir, capture_output=True, text=True, env=env, timeout=3600)
+        if p.returncode != 0:
+            return None, 'native build against /repo failed: ' + p.stderr[-1500:], time.time() - t0
+        exe = _private_copy(os.path.join(tdir, 'debug', u.get('bin', u['name'])), work, u['name'])
     return exe, '', time.time() - t0
 
 
